@@ -161,9 +161,15 @@ claim("C01",
       "angle-object / explicit-natural-zone / Projection-clone arguments give bit-identical results; and EXACTNESS on the central "
       "meridian: at Pythagorean latitudes the northing equals false northing + k0 x the meridian distance computed inside the spec "
       "(MeridianArc.tla: arctangent series + Helmert's series to n^5 in exact fixed point, remainder < 6e-9 m) within 0.2 mm for "
-      "shipped and random ellipsoids, utm / isg / random projections, both hemispheres.",
-      "NOT decided: the 0.2 mm exactness OFF the central meridian (needs the exact TM): there the symmetry / scaling laws are "
-      "necessary conditions and C02's closure against the independently typed inverse series is the other witness. " + GRID_NOTE,
+      "shipped and random ellipsoids, utm / isg / random projections, both hemispheres; and EXACTNESS OFF the central meridian: "
+      "KruegerTM.tla evaluates the Transverse Mercator projection inside the spec (Krueger/Karney series in n to n^5 with "
+      "independently stated rational coefficients, arctangent and area-tangent series, verified Newton roots; neglected terms "
+      "< 4e-6 m within 30 deg of the CM) at Pythagorean latitude x Pythagorean longitude difference (1.8..28 deg both sides), "
+      "and easting / northing must agree within 0.2 mm.",
+      "Exactness is decided on the rational-trigonometry lattice (25 latitudes x 18 longitude differences x ellipsoids x "
+      "projections), elsewhere by the symmetry / scaling laws and C02's closure. The in-spec series is the same mathematics as the "
+      "code's (Krueger), written independently to n^5 instead of n^8; a common conceptual error of the method itself is not "
+      "detectable. " + GRID_NOTE,
       "TLA+ specification of zone/hemisphere rules model-checked exhaustively by TLC, TLC-enumerated strata sampled on the real code, TLC trace validation of relational laws",
       "DESIGN.md section 4 C01")
 claim("C02",
@@ -183,9 +189,12 @@ claim("C10",
       "|dlon| to 30 deg, utm / isg / random projections, shipped and random ellipsoids): point scale factor = k0 of the REQUESTED "
       "projection on the central meridian (8 decimals), convergence = 0 on both axes, sign table (grid bearing = azimuth + "
       "convergence), forward and inverse report the same two values (2e-8; 1e-9 deg + rounding envelope), parity under both mirrors, "
-      "psf/k0 and convergence independent of fe/fn/k0, psf independent of the size of the ellipsoid.",
-      "NOT decided: 2e-8 / 1e-9 deg against the exact projection OFF the axes (finite differences are limited by the 0.1 mm output "
-      "rounding); there the laws are necessary conditions. " + GRID_NOTE,
+      "psf/k0 and convergence independent of fe/fn/k0, psf independent of the size of the ellipsoid; and OFF the axes, at "
+      "Pythagorean latitude x longitude difference, the scale factor (2e-8) and the convergence (1e-9 deg, with its sign) against "
+      "KruegerTM.tla: k = k0 (A/a) sqrt(p^2+q^2) sec(lat) sqrt(1 - e2 sin^2 lat) / hypot(tau', cos dl), gamma = atan(q/p) + "
+      "atan(tau' tan dl / sqrt(1 + tau'^2)) evaluated in exact fixed point inside the spec.",
+      "Exact values are decided on the rational-trigonometry lattice, elsewhere by the relational laws (finite differences were not "
+      "built: the 0.1 mm output rounding limits them to 3e-7 deg). " + GRID_NOTE,
       "TLA+ specification, TLC-enumerated strata exercised on the real code, TLC trace validation of axis values, sign table and relational laws",
       "DESIGN.md section 4 C10")
 
